@@ -6,6 +6,7 @@ ALL = ["tri", "floats", "strings", "containers", "account", "colors", "queue_", 
 RANDOM_USING = ["rng_user"]
 # not part of ALL (other checks iterate ALL): copy them by name
 STATE_BETWEEN_EXECUTIONS = ["tickets"]  # C21: assertions that fail / error when the test is executed again in the same process
+LONG_CHAINS = ["chains"]  # C22: asserted leaf at the end of a chain of unasserted (builtin collection) intermediates
 SHARED_LINES = ["shared_lines", "oneline_first"]  # C35: one source line = entry of code objects + predicates of another one
 # deterministic, but with unannotated / Union parameters, a class hierarchy and a pragma-excluded branch; used by C16 only
 # (kept out of ALL so that the workloads of the other whole-pipeline checks do not change)
